@@ -14,6 +14,7 @@ import (
 	"sort"
 	"strings"
 	"sync"
+	"time"
 
 	"github.com/kubewharf/kubebrain/pkg/storage"
 
@@ -229,7 +230,11 @@ func (h *Handle) decide(op, class, task string) string {
 		f.matched++
 		if f.matched == f.Nth {
 			f.fired = true
-			w.Fired[op+":"+f.Effect]++
+			name := f.Effect
+			if strings.HasPrefix(name, "delay:") {
+				name = "delay"
+			}
+			w.Fired[op+":"+name]++
 			return f.Effect
 		}
 	}
@@ -556,6 +561,15 @@ func (b *Batch) Commit(ctx context.Context) error {
 	h.yield("kv.commit", k)
 	eff := h.decide("commit", e.Class, e.Task)
 	e.Fault = eff
+	if strings.HasPrefix(eff, "delay:") {
+		// a slow engine: the call stays in flight for that much simulated time (deadlines of the
+		// caller run on the same clock), then completes normally
+		var ms int64
+		fmt.Sscanf(eff, "delay:%d", &ms)
+		until := w.S.SimTime() + time.Duration(ms)*time.Millisecond
+		w.S.YieldUntil("kv.delay", func() bool { return w.S.SimTime() >= until })
+		eff = ""
+	}
 	var err error
 	switch eff {
 	case "err", "uncertain-lost":
